@@ -210,9 +210,12 @@ class Seam:
         self.step = step
         self.calls = 0
         self.nested = {}
+        self.after = set()
         if ctx.mode == "history":
             for n in step.get("nested", []) or []:
                 self.nested.setdefault(n["at"], []).extend(n["steps"])
+                if n.get("when") == "after":
+                    self.after.add(n["at"])
         self.raise_at = None
         f = step.get("fault") if ctx.mode == "history" else None
         if f and f.get("kind") == "seam-raise":
@@ -230,6 +233,10 @@ class Seam:
             n = seam.calls
             seam.calls += 1
             steps = seam.nested.get(n)
+            result_first = None
+            if steps and n in seam.after and not (seam.raise_at is not None and n == seam.raise_at):
+                # the other clients run AFTER the callable has done its work, before the library continues
+                result_first = (default(*a, **kw),)
             if steps:
                 ctx = seam.ctx
                 ctx.events.append(("nest", seam.step["id"], n, [s["id"] for s in steps]))
@@ -247,6 +254,8 @@ class Seam:
                 seam.raised = True
                 seam.ctx.events.append(("seam-raise", seam.step["id"], n))
                 raise seam.raise_exc()
+            if result_first is not None:
+                return result_first[0]
             return default(*a, **kw)
         return wrapper
 
